@@ -118,7 +118,8 @@ class G:
         kinds = ["assign", "assign", "assign_arr", "call", "print", "write", "if_stmt", "continue", "goto", "read",
                  "assign_long", "where_stmt", "allocate", "open_close", "assign_log", "assign_char", "return", "stop",
                  "data_like", "forall_stmt", "pointer_assign", "nullify", "arith_if", "computed_goto", "rewind",
-                 "inquire", "comp_assign", "char_substr", "assign_neg", "write_implied", "call_kw"]
+                 "inquire", "comp_assign", "char_substr", "assign_neg", "write_implied", "call_kw", "pause", "flush_wait",
+                 "read_forms", "write_forms", "cycle_exit_named", "stop_code", "entry_like"]
         for _ in range(20):
             k = r.choice(kinds)
             if self.ok(k):
@@ -188,6 +189,26 @@ class G:
             self.emit(depth, "write (*, *) (a(i), i = 1, %s)" % self.iexpr(1), label, feat=k)
         elif k == "call_kw":
             self.emit(depth, "call sub2(p=%s, q=%s)" % (self.rexpr(1), self.rexpr(1)), label, feat=k)
+        elif k == "pause":
+            self.emit(depth, r.choice(["pause", "pause 7", "pause 'msg'"]), label, feat=k)
+        elif k == "flush_wait":
+            self.emit(depth, r.choice(["flush (10)", "flush 10", "wait (10)", "wait (unit=10, iostat=ierr)"]), label, feat=k)
+        elif k == "assign_goto":
+            self.emit(depth, "assign 999 to k", label, feat=k)
+            self.emit(depth, r.choice(["goto k", "go to k, (999)", "goto k (999, 999)"]), feat=k)
+        elif k == "read_forms":
+            self.emit(depth, r.choice(["read *, %s", "read 900, %s", "read (unit=5, fmt=*, iostat=ierr) %s",
+                                       "read (5, '(f8.3)', end=999, err=999) %s"]) % r.choice(SCAL), label, feat=k)
+        elif k == "write_forms":
+            self.emit(depth, r.choice(["write (6, '(a, i3)') %s, %s", "write (unit=6, fmt=900, iostat=ierr) %s, %s",
+                                       "print 900, %s, %s", "print '(a)', %s, %s"]) % (self.strlit(), self.iexpr(1)),
+                      label, feat=k)
+        elif k == "stop_code":
+            self.emit(depth, "if (%s) stop %s" % (self.lexpr(1), r.choice(["1", "'bad'", "77"])), label, feat=k)
+        elif k == "cycle_exit_named":
+            self.emit(depth, "continue", label, feat=k)
+        elif k == "entry_like":
+            self.emit(depth, "%s = %s" % (r.choice(SCAL), "func(%s, %s)" % (self.rexpr(1), self.iexpr(1))), label, feat=k)
         elif k == "data_like":
             self.emit(depth, "%s = (/ 1.0, 2.0, %s /)" % ("c", self.rexpr(2)), label, feat=k)
 
@@ -202,7 +223,8 @@ class G:
                 continue
             kinds = ["if_then", "if_else", "do_block", "do_label_continue", "do_label_action", "do_shared",
                      "do_while", "select", "where_construct", "named_do", "named_if", "do_label_enddo", "exit_cycle",
-                     "forall_construct", "do_comma", "select_named", "do_forever", "named_else"]
+                     "forall_construct", "do_comma", "select_named", "do_forever", "named_else", "associate",
+                     "select_type"]
             for _ in range(20):
                 k = r.choice(kinds)
                 if self.ok(k):
@@ -277,6 +299,19 @@ class G:
                 if r.random() < 0.6:
                     self.emit(depth + 1, "case default", feat=k)
                     self.block(depth + 1, b, in_do)
+                self.emit(depth, "end select", feat=k, closes=True)
+            elif k == "associate":
+                self.emit(depth, "associate (zz9 => %s, yy9 => a(%s))" % (self.rexpr(1), self.iexpr(1)), feat=k, opens=True)
+                self.block(depth + 1, b, in_do)
+                self.emit(depth, "end associate", feat=k, closes=True)
+            elif k == "select_type":
+                self.emit(depth, "select type (cobj)", feat=k, opens=True)
+                self.emit(depth + 1, "type is (rtype)", feat=k)
+                self.block(depth + 1, b, in_do)
+                self.emit(depth + 1, "class is (rtype)", feat=k)
+                self.block(depth + 1, b, in_do)
+                self.emit(depth + 1, "class default", feat=k)
+                self.block(depth + 1, b, in_do)
                 self.emit(depth, "end select", feat=k, closes=True)
             elif k == "forall_construct":
                 self.emit(depth, "forall (i = 1:%s)" % self.iexpr(1), feat=k, opens=True)
@@ -377,6 +412,46 @@ class G:
             self.emit(depth, "equivalence (x, y)", feat="equivalence")
         if self.ok("implicit_stmt") and r.random() < 0.1:
             self.emit(depth, "implicit real (a-h, o-z)", feat="implicit_stmt")
+        for feat, prob, forms in [
+            ("access_stmt", 0.15, ["public :: x, y", "private", "public", "private :: t1"]),
+            ("allocatable_stmt", 0.15, ["allocatable :: q2(:)", "allocatable q3(:, :)"]),
+            ("asynchronous_stmt", 0.1, ["asynchronous :: x", "volatile :: y", "volatile z"]),
+            ("target_stmt", 0.15, ["target :: t1", "target t2, a", "pointer :: pp", "pointer pp2(:)"]),
+            ("intent_stmt", 0.15, ["intent(in) :: p1", "intent (out) p2", "optional :: p2", "optional p1", "value :: p1"]),
+            ("bind_stmt", 0.08, ["bind(c) :: x", "bind(c, name='cn') :: /blk/"]),
+            ("protected_stmt", 0.08, ["protected :: x"]),
+            ("sequence_type", 0.15, None),
+            ("double_complex", 0.1, ["double complex zz2", "double complex :: zz3(2)", "byte bb"]),
+            ("class_decl", 0.1, ["class(rtype), pointer :: cobj", "class(*), pointer :: cany"]),
+            ("enum_def", 0.1, None),
+            ("import_stmt", 0.0, None),
+        ]:
+            if not self.ok(feat) or r.random() >= prob:
+                continue
+            if feat == "sequence_type":
+                self.emit(depth, "type stype", feat=feat, opens=True)
+                self.emit(depth + 1, "sequence", feat=feat)
+                self.emit(depth + 1, "integer :: ia", feat=feat)
+                self.emit(depth + 1, "real, dimension(3) :: ra", feat=feat)
+                self.emit(depth, "end type stype", feat=feat, closes=True)
+            elif feat == "enum_def":
+                self.emit(depth, "enum, bind(c)", feat=feat, opens=True)
+                self.emit(depth + 1, "enumerator :: red = 1, green", feat=feat)
+                self.emit(depth + 1, "enumerator blue", feat=feat)
+                self.emit(depth, "end enum", feat=feat, closes=True)
+            else:
+                self.emit(depth, r.choice(forms), feat=feat)
+        if self.ok("iface_modproc") and r.random() < 0.15:
+            self.emit(depth, "interface gen1", feat="iface_modproc", opens=True)
+            self.emit(depth + 1, "module procedure sub1, sub2", feat="iface_modproc")
+            self.emit(depth, "end interface gen1", feat="iface_modproc", closes=True)
+        if self.ok("iface_import") and r.random() < 0.12:
+            self.emit(depth, "interface", feat="iface_import", opens=True)
+            self.emit(depth + 1, "function ifun(p)", feat="iface_import", opens=True)
+            self.emit(depth + 2, "import :: rtype", feat="iface_import")
+            self.emit(depth + 2, "real :: p, ifun", feat="iface_import")
+            self.emit(depth + 1, "end function ifun", feat="iface_import", closes=True)
+            self.emit(depth, "end interface", feat="iface_import", closes=True)
         if self.ok("format") and r.random() < 0.5:
             self.emit(depth, "format (1x, i4, 'a)b', f8.3)", 900, feat="format")
 
@@ -394,6 +469,9 @@ class G:
             if "result" in form and r.random() < 0.6 and not form.startswith(("integer", "double")):
                 self.emit(depth + 1, r.choice(["real :: res", "real res", "integer :: res"]), feat="function_result")
         self.decls(depth + 1)
+        if kind != "program" and depth == 0 and self.ok("entry") and r.random() < 0.15:
+            self.emit(depth + 1, r.choice(["entry alt_%s(p1)" % name, "entry alt_%s" % name]) if kind == "subroutine"
+                      else "entry alt_%s(p1)" % name, feat="entry")
         self.block(depth + 1, 3)
         if r.random() < 0.3:
             self.emit(depth + 1, "continue", 999, feat="continue")
@@ -420,6 +498,12 @@ class G:
                 self.unit(1, r.choice(["subroutine", "function"]), "msub", allow_contains=False)
             self.emit(0, "end module mod1", feat="module", closes=True)
             self.modules.append("mod1")
+        if self.ok("block_data") and r.random() < 0.15:
+            self.emit(0, "block data bdat", feat="block_data", opens=True)
+            self.emit(1, "real cx, cy", feat="block_data")
+            self.emit(1, "common /blk/ cx, cy", feat="block_data")
+            self.emit(1, "data cx, cy /1.0, 2.0/", feat="block_data")
+            self.emit(0, "end block data bdat", feat="block_data", closes=True)
         for q in range(r.randrange(0, 3)):
             self.unit(0, r.choice(["subroutine", "function"]), "ext%d" % q)
         if r.random() < 0.7 or not self.out:
